@@ -607,8 +607,12 @@ def strata(tier, seed):
     obj = [dict(fn=name, gen_seed=gs, globals=[0, 7, 123, None]) for name in _seeded(None) for gs in (5, 6)]
     yield Stratum('generator objects', obj, 'object', size=len(obj), chunk=1, fresh_worker=True, bounds={})
     if tier == 'thorough':
-        third = [i for i in ids if A[i][0] in ('seeded', 'default') and ('seed=0' in i or '(gen)' in i or A[i][0] == 'default')]
-        firsts = [i for i in ids if A[i][0] in ('default', 'perturb') or 'seed=1' in i or '(gen)' in i]
+        # first and third position: the calls that can leave / feel residue (default-argument calls, perturbations of the global generator,
+        # one seed per seeded function); the middle position: the whole alphabet.  (With every seeded variant in the outer positions the
+        # stratum has 760 000 histories of 3 calls in a fresh process each, about 5 hours on 16 cores.)
+        basef = set(_seeded(None))
+        third = [i for i in ids if A[i][0] == 'default' or (A[i][0] == 'seeded' and i.endswith('(seed=0)') and i[:-8] in basef)]
+        firsts = [i for i in ids if A[i][0] in ('default', 'perturb') or (A[i][0] == 'seeded' and i.endswith('(seed=1)') and i[:-8] in basef)]
         h3 = [[a, b, c] for a in firsts for b in ids for c in third]
         cases3 = [dict(hist=h, expect={k: list(base[k]) for k in h if k in base}) for h in h3]
         yield Stratum('histories=3', cases3, 'history', size=len(firsts) * len(ids) * len(third), chunk=1,
